@@ -515,12 +515,12 @@ class Interp(object):
             return
         if isinstance(obj, SByteArray):
             raise Unsupported("bytearray item assignment")
-        if has_sym(key):
-            raise Unsupported("item assignment with symbolic key on %s" % type(obj).__name__)
         si = _class_attr(type(obj), "__setitem__")
-        if isinstance(si, types.FunctionType) and (has_sym(obj) or has_sym(val)):
+        if isinstance(si, types.FunctionType) and (has_sym(obj) or has_sym(val) or has_sym(key)):
             self.call_pyfunc(si, (obj, key, val), {})
             return
+        if has_sym(key):
+            raise Unsupported("item assignment with symbolic key on %s" % type(obj).__name__)
         obj[key] = val
 
     # ------------------------------------------------------------------
@@ -799,13 +799,13 @@ class Interp(object):
             return obj.s_getitem(key)
         if isinstance(obj, RX.SMatch):
             return obj[key]
+        gi = _class_attr(type(obj), "__getitem__")
+        if isinstance(gi, types.FunctionType) and (has_sym(obj) or has_sym(key)):
+            return self.call_pyfunc(gi, (obj, key), {})
         if has_sym(key):
             if isinstance(obj, dict):
                 return V.lookup_concrete(obj, key, None, missing_raises=True)
             raise Unsupported("subscript with symbolic key on %s" % type(obj).__name__)
-        gi = _class_attr(type(obj), "__getitem__")
-        if isinstance(gi, types.FunctionType) and has_sym(obj):
-            return self.call_pyfunc(gi, (obj, key), {})
         return obj[key]
 
     # ------------------------------------------------------------------
